@@ -221,6 +221,12 @@ def _families(rng):
     out += [
         ("shared sub-circuit with different repetitions/maps", cirq.Circuit(cirq.CircuitOperation(sub, repetitions=2), cirq.CircuitOperation(sub, param_resolver={a: 0.5}),
                                                                        cirq.CircuitOperation(sub, measurement_key_map={"m": "n"}, qubit_map={q[0]: q[1]}))),
+        ("circuit operations with repetition ids", [cirq.CircuitOperation(sub, repetitions=3, use_repetition_ids=True), cirq.CircuitOperation(sub, repetitions=2, repetition_ids=["0", "1"]),
+                                                    cirq.CircuitOperation(sub, repetitions=2, repetition_ids=["x", "y"]), cirq.CircuitOperation(sub, repetitions=2, use_repetition_ids=False),
+                                                    cirq.CircuitOperation(cirq.FrozenCircuit(cirq.S(q[0]), cirq.CNOT(q[0], q[1])), repetitions=-2, use_repetition_ids=True), cirq.CircuitOperation(sub, repetitions=sympy.Symbol("r")),
+                                                    cirq.CircuitOperation(cirq.FrozenCircuit(cirq.X(q[0]), cirq.measure(q[0], key="m")), use_repetition_ids=False, repeat_until=cirq.KeyCondition(cirq.MeasurementKey("m"))),
+                                                    cirq.CircuitOperation(sub, parent_path=("a", "b"), extern_keys=frozenset({cirq.MeasurementKey("e")}))]),
+        ("circuit with a repeated sub-circuit using ids", cirq.Circuit(cirq.CircuitOperation(sub, repetitions=2, use_repetition_ids=True), cirq.H(q[1]))),
         ("sympy expressions", [cirq.X(q[0]) ** (a + 2 * b), cirq.rz(a * sympy.pi)(q[1]), cirq.Z(q[0]) ** (a ** 2 - b / 3), cirq.X(q[2]).with_classical_controls(sympy.Eq(a, 1))]),
         ("numpy payloads", [cirq.MatrixGate(np.array([[0, 1j], [-1j, 0]])), cirq.KrausChannel([np.eye(2) * np.sqrt(0.5), np.array([[0, 1], [1, 0]]) * np.sqrt(0.5)], key="k"),
                             cirq.ResultDict(params=cirq.ParamResolver({"a": 0.5}), measurements={"m": np.array([[0, 1], [1, 1]], dtype=np.uint8)}),
